@@ -158,6 +158,38 @@ fn residual3_ok_unit(mesh: &Mesh, m: &Point3, mode: usize, got: f64, u: f64) -> 
     }
 }
 
+/// The starting guess is a rotation at gimbal lock, Rx(a) Ry(+-90 deg) Rz(c) on a 30-degree grid (exactly the answer:
+/// the part is displaced by its inverse): whatever parameterisation the solver uses for its start, it has to accept
+/// such a guess and return the answer. `a` = grid index, `b` = sign of the quarter turn.
+fn judge_gimbal3(case: &Case, l: &mut Local) {
+    let mk = || serde_json::to_value(case).unwrap();
+    let mesh = mesh_ref(case.shape);
+    let samples = mesh_samples(&mesh);
+    let (ia, ic) = (case.a / 12, case.a % 12);
+    let (a, c) = ((ia as f64 * 30.0 - 180.0) * DEG, (ic as f64 * 30.0 - 180.0) * DEG);
+    let q = if case.b == 0 { 90.0 * DEG } else { -90.0 * DEG };
+    let rot = Iso3::rotation(Vector3::x() * a) * Iso3::rotation(Vector3::y() * q) * Iso3::rotation(Vector3::z() * c);
+    let guess = Iso3::from_parts(Vector3::new(0.4, -0.2, 0.3).into(), rot.rotation);
+    let shift = guess.inverse();
+    let mode = || if case.mode == 0 { DistMode::ToPlane } else { DistMode::ToPoint };
+    let moved: Vec<Point3> = samples.iter().map(|p| shift * p).collect();
+    l.eval();
+    l.bucket("3D guess at gimbal lock");
+    match guarded(|| points_to_mesh(&moved, &mesh, &guess, mode()).map_err(|e| e.to_string())) {
+        Err(e) => {
+            l.check("3D alignment returns", "panic", false, mk, || e.clone());
+        }
+        Ok(Err(e)) => {
+            l.check("3D alignment succeeds inside the stated basin", "gimbal", false, mk, || e.clone());
+        }
+        Ok(Ok(al)) => {
+            let err = ((al.transform() * shift).to_matrix() - Iso3::identity().to_matrix()).abs().max();
+            l.outcome(hash_of(&(case.b, err <= 1e-6, 21u8)));
+            l.check("3D: returned transform composed with the displacement is the identity", "gimbal", err <= 1e-6, mk, || format!("guess Rx({}) Ry({}) Rz({}): error {:e}", a / DEG, q / DEG, c / DEG, err));
+        }
+    }
+}
+
 /// Recovery inside the basin with the reference, the samples, the displacement and the guess all given in another
 /// length unit (millimetres, kilometres): the rotation is recovered to 1e-6 and the translation to 1e-6 units
 fn judge_unit3(case: &Case, l: &mut Local) {
@@ -445,6 +477,7 @@ pub fn judge(case: &Case, l: &mut Local) {
         "wild2" => judge_rec2(case, true, l),
         "rec3" => judge_rec3(case, false, l),
         "unit3" => judge_unit3(case, l),
+        "gimbal3" => judge_gimbal3(case, l),
         "wild3" => judge_rec3(case, true, l),
         "turned2" => judge_rec2(case, true, l),
         "turned3" => judge_rec3(case, true, l),
@@ -464,6 +497,12 @@ pub fn cases(tier: Tier) -> Vec<Case> {
     for shape in 0..2 {
         for mode in 0..2 {
             out.push(c("hist3", shape, mode, 0, 0, 0));
+        }
+    }
+    // starting guesses at gimbal lock on a 30-degree grid
+    for a in 0..144 {
+        for b in 0..2 {
+            out.push(c("gimbal3", a % 2, (a / 2) % 2, a, b, 0));
         }
     }
     // the 3D basin in millimetres and kilometres (every ninth displacement in the quick tier)
@@ -529,7 +568,7 @@ pub fn run(tier: Tier) -> i32 {
     cx.rule = "MC: every set_params history of length <= 3 (thorough: 4) over a 5-vector alphabet (start, two small, two large moves) of the private 2D points-to-curve problem (3 reference curves x 2 initial guesses) and the 3D points-to-mesh problem (2 meshes x 2 distance modes), each compared with a fresh problem whose history is just the last element, residuals recomputed by brute force. EX: recovery of every displacement of the stated basin (2D: {-.05,0,.05}^2 x {0,+-3,+-10 deg}; 3D: {-.1,0,.1}^3 x {0, +-2 deg about x, y, z, (1,1,1)}; at most 5% of the smallest feature) x 2 initial guesses x sample densities x both DistModes on rectangle / L-shape / pentagon and box / L-prism; the 3D basin also with everything in millimetres and in kilometres; out-of-basin starts (25-40 deg) judged for residual honesty only; 'turned parts': displacements of 60-170 deg (2D) / 1.2-3 rad (3D) with translations, started from a guess within the basin of the exact answer, must be recovered. distinct = distinct cases".into();
     DEEP.store(tier == Tier::Thorough, std::sync::atomic::Ordering::Relaxed);
     cx.bounds = json!({"history_len": tier.pick(3, 4), "alphabet": 5, "shifts2": shifts2().len(), "shifts3": shifts3().len(), "shifts3_subsampling": tier.pick(3, 1)});
-    cx.require(&["2D set_params history", "3D set_params history", "2D displacement inside the basin", "2D start outside the basin", "3D plane mode inside the basin", "3D point mode inside the basin", "3D start outside the basin", "2D turned part, guess near the answer", "3D turned part, guess near the answer", "3D open bracket, samples sliding off free edges", "2D result with residuals of both signs", "3D recovery in another length unit"]);
+    cx.require(&["2D set_params history", "3D set_params history", "2D displacement inside the basin", "2D start outside the basin", "3D plane mode inside the basin", "3D point mode inside the basin", "3D start outside the basin", "2D turned part, guess near the answer", "3D turned part, guess near the answer", "3D open bracket, samples sliding off free edges", "2D result with residuals of both signs", "3D recovery in another length unit", "3D guess at gimbal lock"]);
     cx.assume("basin: translations up to 5% of the smallest feature, rotations up to 10 deg (2D) / 2 deg (3D), guesses within 2 deg / 0.1; recovery judged at 1e-6 on matrix entries; plane-mode residuals may use any minimising face");
     let cs = cases(tier);
     let l = sweep(&cs, judge);
